@@ -217,3 +217,21 @@ func TestC13S(t *testing.T) {
 	o := simOpts{Focus: "C13", MaxN: 7, MaxHeight: 3, MaxSteps: 150, ByzBias: 60}
 	simProperty(t, o, func(w *sim.World) bool { return w.Mon.Facts["sync"] > 0 || w.Obs.HeightsDone >= 2 })
 }
+
+// C11 thorough variant: at emission, every correct peer is cloned by replay and judged at once (see sim.cloneCheck).
+func TestC11Clone(t *testing.T) {
+	col := ev.Get("C11")
+	o := simOpts{Focus: "C11", MaxN: 6, MaxHeight: 2, MaxSteps: 100, ByzBias: 85,
+		Strategies: []string{"vc", "vc", "vc", "prepare", "prepare", "commit", "pp", "nv", "replay", "support"}}
+	rapid.Check(t, func(t *rapid.T) {
+		w := runSimCaseWith(t, o, func(w *sim.World) { w.CloneMode = true })
+		recordSim(col, w)
+		col.ClassN("clone-judged", int64(w.Mon.Facts["c11-clone-judged"]))
+		col.ClassN("clone-diverged", int64(w.Mon.Facts["c11-clone-diverged"]))
+		if w.Mon.Facts["c11-clone-judged"] > 0 && w.Obs.ByzStored > 0 {
+			col.NonTrivialHash(traceSig(w))
+			col.Class("nontrivial")
+		}
+		reportSim(t, w)
+	})
+}
